@@ -34,7 +34,7 @@ RULE = ('cases: seeded descriptions with 0-4 systems (arbitrary priorities, freq
         'description signature.')
 ASSUMPTIONS = ['fixtures record what they are handed; the model-level hooks are not handed the model (documented) and are checked through the '
                'most recently created model', 'descriptions are well-formed (unique system ids)']
-FLOORS = {'quick': {'cases_in_mode_warnings': 156, 'nested_decodes_that_failed_and_were_caught_by_the_hook': 283, 'retries_of_the_same_description_after_a_failed_decode': 750, 'decodes_failing_half_way': 750, 'same_dict_object_decoded_again': 207, 'decodes': 2000, 'events_compared': 15000, 'json_decodes': 800, 'dict_decodes': 800, 'repeat_decodes': 300,
+FLOORS = {'quick': {'decodes_with_same_named_decoys_in_the_running_script': 2918, 'cases_in_mode_warnings': 156, 'nested_decodes_that_failed_and_were_caught_by_the_hook': 283, 'retries_of_the_same_description_after_a_failed_decode': 750, 'decodes_failing_half_way': 750, 'same_dict_object_decoded_again': 207, 'decodes': 2000, 'events_compared': 15000, 'json_decodes': 800, 'dict_decodes': 800, 'repeat_decodes': 300,
                     'groups_of_size_zero': 200, 'descriptions_without_systems': 100, 'descriptions_without_agents': 100,
                     'hooks_run': 5000, 'agents_created': 3000, 'complete_models': 300, 'spatial_model_decodes': 300, 'big_agent_groups': 2, 'big_descriptions': 2, 'two_module_descriptions': 200, 'nested_decodes_during_decode': 200, 'late_bound_system_classes': 200,
                     'environment_replaced_by_hook': 100, 'reach:Decode.Decoder.decode': 2000, 'reach:Decode.JsonDecoder.open_file': 800},
@@ -135,7 +135,30 @@ def expected_events(d):
     return ev
 
 
+DECOYS_USED = []
+
+
+def plant_decoys():
+    """The running script (`__main__`) happens to define things with the same names as the classes and hooks that the descriptions
+    list WITH their modules: a description says which module it means, so none of these may ever be used."""
+    import __main__ as script
+    if getattr(script, '_verif_decoys', False):
+        return
+
+    def decoy(name):
+        def used(*a, **kw):
+            DECOYS_USED.append(name)
+            raise AssertionError(f'{name} of the running script was used instead of the listed one')
+        return type(name, (), {'decode': staticmethod(used), '__call__': used, '__init__': lambda self, *a, **kw: None}) if name != 'hook' else used
+    for name in ('RModel', 'RSystem', 'RAgent', 'hook', 'FlakyAgent', 'FailingSystem', 'DynSystem'):
+        if not hasattr(script, name):
+            setattr(script, name, decoy(name))
+    script._verif_decoys = True
+
+
 def decode_and_check(ctx, decoder, arg, d, how, inner=None, inner_fail=None):
+    plant_decoys()
+    del DECOYS_USED[:]
     from vlib.fixtures import decodables as fx
     import ECAgent.Core as core
     from vlib.fixtures import decodables_alt as fx2
@@ -148,7 +171,13 @@ def decode_and_check(ctx, decoder, arg, d, how, inner=None, inner_fail=None):
     SHARED['inner_fail'] = inner_fail
     SHARED['nested_runs'] = 0
     SHARED['nested_failures'] = 0
-    model = decoder.decode(arg)
+    try:
+        model = decoder.decode(arg)
+    finally:
+        if DECOYS_USED:
+            raise CaseViolation(f'the description lists {DECOYS_USED[0]} with its module, but the object of that name in the running script (__main__) '
+                                f'was used', how=how)
+    ctx.count('decodes_with_same_named_decoys_in_the_running_script')
     ctx.count('nested_decodes_during_decode', SHARED['nested_runs'])
     ctx.count('nested_decodes_that_failed_and_were_caught_by_the_hook', SHARED['nested_failures'])
     ctx.count('late_bound_system_classes', sum(1 for s_ in d['systems'] if s_['name'] == 'DynSystem'))
